@@ -22,7 +22,9 @@ TRUSTED_BASE = ["coqc 8.16.1 kernel (vm_compute for table lemmas and witnesses; 
                 "harness pdfh (Rust, harness/src/modes/xref.rs), tools/vplib (comparison)",
                 "tools/oracle/xrefspec.py + pdfwriter.py + canon.py (history generator, section printers, file writer, expected values)"]
 ASSUMPTIONS = ["oracle of C02_walk_latest: reading one cross-reference section at a position (object parser, stream decoding) is a function "
-               "xref_at; the theorem's premise says it returns the sections and trailer the history wrote there (tested on every xr_walk/xr_all case)",
+               "xref_at; the theorem's premise says it returns the sections and trailer the history wrote there (tested on every xr_walk/xr_all case); "
+               "discharged for classic-table files (C02_xref_at_section, C02_walk_latest_tables, C02_resolve_latest: premises about the file's bytes only), "
+               "still an oracle for cross-reference streams and object streams",
                "usize = u64 (64-bit target); Primitive::Integer is i32",
                "bytes are < 256 (wf_bytes) in the section round-trip theorems"]
 RULE = ("histories of 1-6 updates over 1-40 numbers, every ordered pair (previous form, new form) in {absent,direct,compressed,free}^2 and "
